@@ -77,7 +77,7 @@ func c05Launch(p *Program, r *Report) {
 			if len(p.ctorCalls(lc, fn)) > 0 {
 				good = good && allContain(rec, "#0<-call:")
 			} else {
-				good = good && allContain(rec, "field:"+lc.Ctx.Obj().Name()+".ref<-")
+				good = good && allContain(rec, "field:"+lc.pat(lc.RefF))
 			}
 			r.Check(good, "OnLaunch told in "+fnName(fn), ts.In.Pos(), "system message addressed to the launched context's own ref ("+strings.Join(rec, " | ")+"), never to a parent")
 		}
@@ -354,7 +354,7 @@ func c05Restart(p *Program, r *Report) {
 	}
 	r.Check(good, "running before OnLaunch before Resume", firstPos(g, launch), "on the restart success path state←running dominates the OnLaunch tell, and every path from it to the exit resumes the mailbox")
 	// provider: actor field replaced by Provide() under provider != nil
-	actorF := fieldVar(lc.Ctx, "actor")
+	actorF := lc.ActorF
 	var actorStore map[int]bool = nodesWhere(g, func(in ssa.Instruction) bool {
 		st, ok := in.(*ssa.Store)
 		if !ok {
@@ -431,7 +431,7 @@ func c05Restart(p *Program, r *Report) {
 	_, dereg := steps[lc.RemoveRegistry]
 	r.Check(!dereg, "restart keeps the registration", fn.Pos(), "the registry-removal routine is not reachable from the restart step")
 	bad := ""
-	refF := fieldVar(lc.Ctx, "ref")
+	refF := lc.RefF
 	for _, a := range p.fieldAccesses(map[*types.Var]bool{lc.MailboxF: true, refF: true}) {
 		if a.Write && !a.Fresh && a.Fn == fn {
 			bad = a.Field.Name()
